@@ -516,6 +516,25 @@ def _l_append(ex, st, base, args, kwargs, k, where):
     return k(s2, VNone)
 
 
+@method("VList", "insert")
+def _l_insert(ex, st, base, args, kwargs, k, where):
+    """list.insert(i, x): items[:i] + [x] + items[i:] with python's clamping of i; never raises"""
+    i = ex.num(ex.unwrap(args[0]))
+    v = args[1]
+    if isinstance(base.elem, KPrim) and base.elem.name.startswith("Any") and (v is VNone or isinstance(v, VOpt)):
+        nt = ex.decls.const("none$token", INT)
+        if v is VNone:
+            v = VAny(nt)
+        elif hasattr(v.inner, "t") and v.inner.t.sort == INT:
+            v = VAny(Ite(v.isnone, nt, v.inner.t))
+    c = to_comps(ex.coerce(st, v, base.elem), base.elem, lambda so: ex.arbitrary(so))
+    if len(c) != 1:
+        raise Unsupported("insert of a multi-component value")
+    items = ex.seq_items(st, base)
+    s2 = ex.set_seq_items(st, base, seq_concat(ex.slice_term(items, None, i), seq_unit(c[0]), ex.slice_term(items, i, None)))
+    return k(s2, VNone)
+
+
 @method("VDeque", "append")
 def _dq_append(ex, st, base, args, kwargs, k, where):
     v = ex.unwrap_strict(args[0])
